@@ -288,13 +288,15 @@ class SymNum:
         return SymBool(self.t != l.t)
 
     def __hash__(self):
-        # recorded: a result that depends on the hash of a number is flagged by C14; the
-        # structural hash lets dict/set operations proceed (equal terms collide and are then
-        # compared with ==, which forks)
+        # recorded: a result that depends on the hash of a number is flagged by C14.  Every
+        # symbolic number has the *same* hash: two different terms may denote equal values (and
+        # equal floats hash equal), so a dict / set lookup must always fall through to ==, which
+        # forks on the equality (a structural hash silently assumed "different terms are
+        # different values": round-5 seed C09, a memo keyed by (mu_a, mu_b))
         c = _CUR
         if c is not None:
             c.events.append(("hash", "SymNum"))
-        return self.t.hash()
+        return 0x5eed
 
     def __bool__(self):
         return cur().decide(self.t != 0)
@@ -1185,6 +1187,7 @@ class Ctx:
         self.light.set("timeout", self.feas_timeout_ms)
         self._all = []              # every constraint so far (for the lazy full solver)
         self.site = ""
+        self.fold_depth = 0
 
     def _full(self):
         if self.solver is None:
@@ -1227,6 +1230,10 @@ class Ctx:
             t = self.feasible(e)
             f = self.feasible(z3.Not(e))
             if t and f:
+                if getattr(self, "fold_depth", 0) > 0:
+                    # inside the body run for the *arbitrary* member of a team of symbolic size (teams.py):
+                    # other members may take the other side, which the map/fold rule does not cover
+                    raise UncutLoop(f"value-dependent branch inside a loop over a team of symbolic size: {str(e)[:100]}")
                 if not self.exploring:
                     # nobody would ever run the other side: refuse rather than cover half
                     raise EngineError(f"fork outside an exploration on {str(e)[:120]}")
@@ -1268,6 +1275,7 @@ class Ctx:
             while work:
                 sched = work.pop()
                 self.pc, self.taken, self.schedule, self.worklist = list(base_pc), [], list(sched), work
+                self.fold_depth = 0
                 self.light.push()
                 if had_full:
                     self.solver.push()
